@@ -20,7 +20,7 @@ for p in props:
           "evidence_file":"/verif/evidence/%s.json"%pid,
           "replay_cmd_template":"cd /verif && bin/govc replay {path}",
           "engine":"govc",
-          "level_claimed":{"category":"proof","text":c['text'],"design_ref":c.get('design_ref','DESIGN.md section 3')},
+          "level_claimed":{"category":c.get("category","proof"),"text":c['text'],"design_ref":c.get('design_ref','DESIGN.md section 3')},
           "level_note":c['note'],
           "technique":c.get('technique',"contract-based deductive verification: per-function contracts on the real code, VCs generated from go/ssa, discharged by z3/cvc5")})
     else:
